@@ -1637,6 +1637,9 @@ impl DistributedTxCoordinator {
         // (it recorded an edge to the holder) and never held a lock of its own is not removed
         // by the per-handle cleanup above.
         self.wait_graph.remove_transaction(tx_id);
+        // A PREPARE answered twice re-stamped the keys with a handle no recorded vote carries
+        // (the duplicate vote is refused): whatever the transaction still holds goes with it.
+        self.lock_manager.release(tx_id);
 
         // Mark all locks released
         let _ = self.log_wal_entry(&TxWalEntry::AllLocksReleased { tx_id });
@@ -1688,6 +1691,9 @@ impl DistributedTxCoordinator {
         // (it recorded an edge to the holder) and never held a lock of its own is not removed
         // by the per-handle cleanup above.
         self.wait_graph.remove_transaction(tx_id);
+        // A PREPARE answered twice re-stamped the keys with a handle no recorded vote carries
+        // (the duplicate vote is refused): whatever the transaction still holds goes with it.
+        self.lock_manager.release(tx_id);
 
         tx.phase = TxPhase::Committed;
         self.stats.committed.fetch_add(1, Ordering::Relaxed);
@@ -1733,6 +1739,9 @@ impl DistributedTxCoordinator {
         // (it recorded an edge to the holder) and never held a lock of its own is not removed
         // by the per-handle cleanup above.
         self.wait_graph.remove_transaction(tx_id);
+        // A PREPARE answered twice re-stamped the keys with a handle no recorded vote carries
+        // (the duplicate vote is refused): whatever the transaction still holds goes with it.
+        self.lock_manager.release(tx_id);
 
         tx.phase = TxPhase::Aborted;
         self.stats.aborted.fetch_add(1, Ordering::Relaxed);
@@ -1803,6 +1812,9 @@ impl DistributedTxCoordinator {
         // (it recorded an edge to the holder) and never held a lock of its own is not removed
         // by the per-handle cleanup above.
         self.wait_graph.remove_transaction(tx_id);
+        // A PREPARE answered twice re-stamped the keys with a handle no recorded vote carries
+        // (the duplicate vote is refused): whatever the transaction still holds goes with it.
+        self.lock_manager.release(tx_id);
 
         tx.phase = TxPhase::Aborted;
         self.stats.aborted.fetch_add(1, Ordering::Relaxed);
@@ -1885,6 +1897,8 @@ impl DistributedTxCoordinator {
                 // (it recorded an edge to the holder) and never held a lock of its own is not removed
                 // by the per-handle cleanup above.
                 self.wait_graph.remove_transaction(*tx_id);
+                // Locks under a handle no recorded vote carries (PREPARE answered twice) go too.
+                self.lock_manager.release(*tx_id);
                 self.stats.timed_out.fetch_add(1, Ordering::Relaxed);
             }
         }
